@@ -98,6 +98,7 @@ void vf_violation(const char *sig, const char *fmt, ...) {
             fprintf(f, ",\"mode\":"); jstr(f, A.mode ? A.mode : "");
             fprintf(f, ",\"tier\":"); jstr(f, A.tier);
             fprintf(f, ",\"mtu\":%zu,\"wifi\":%d,\"fill\":%u,\"part\":%d,\"nparts\":%d,\"a\":%ld,\"b\":%ld,\"depth\":%ld", A.mtu, A.wifi, A.fill, A.part, A.nparts, A.a, A.b, A.depth);
+            { extern uint64_t vf_clock_origin; fprintf(f, ",\"clock_origin\":%llu", (unsigned long long)vf_clock_origin); }
             if (vf_cex_extra) fprintf(f, ",%s", vf_cex_extra);
             if (vf_cex_writer) { fprintf(f, ","); vf_cex_writer(f); }
             fprintf(f, "}\n");
@@ -192,6 +193,7 @@ void vf_parse_args(int argc, char **argv, const char *property) {
         else if (!strcmp(k, "--mode")) { A.mode = v; i++; }
         else if (!strcmp(k, "--depth")) { A.depth = atol(v); i++; }
         else if (!strcmp(k, "--deadline")) { A.deadline = atof(v); i++; }
+        else if (!strcmp(k, "--origin")) { extern uint64_t vf_clock_origin; vf_clock_origin = strtoull(v, NULL, 10); i++; }      /* replay: the clock origin of the recorded run */
         else if (!strcmp(k, "--a")) { A.a = atol(v); i++; }
         else if (!strcmp(k, "--b")) { A.b = atol(v); i++; }
         else if (!strcmp(k, "-v")) A.verbose = 1;
